@@ -246,6 +246,11 @@ def check(ctx):
                 same = canon(su.slice) == canon(sz.slice)
                 ctx.check(same, es, sel[us][1], f"points and values selected by the same selector {canon(su.slice)}", f"points are selected by {canon(su.slice)} but values by {canon(sz.slice)}", construct="survivor selectors differ")
                 sl = su.slice
+                if isinstance(sl, ast.Name):
+                    # the kept indices held in a local: best = order[0:N]
+                    dd_ = reaching_assignments(prog, es, sl.id, sel[us][1])
+                    if len(dd_) == 1:
+                        sl = dd_[0]
                 ok_slice = isinstance(sl, ast.Subscript) and isinstance(sl.slice, ast.Slice) and (sl.slice.lower is None or const_num(sl.slice.lower) == 0) and sl.slice.step is None
                 ctx.check(ok_slice, es, sel[us][1], "kept slice order[0:N] starts at the best", "the kept slice of the ordering does not start at index 0 (or is stepped / reversed)", construct=f"kept slice {canon(sl)}")
                 if ok_slice and isinstance(sl.value, ast.Name):
